@@ -28,6 +28,11 @@ NOEQ_SHAPES = ("add", "twotemp", "diff", "mullit", "absf", "avgdev", "tree")
 TREE_FUNCS = {"ABS": "RECTIFIER", "D": "DIFFERENTIATOR", "I": "INTEGRATOR"}
 TREE_AGGS = ("AVG", "SUM", "MIN", "MAX")
 T0 = (2020, 3, 1, 0, 0, 0, 0)
+# calendar mode: instants on both sides of day / month / year boundaries, listed out of order
+CAL = [(2020, 3, 1, 0, 0, 0, 0), (2020, 1, 31, 18, 0, 0, 0), (2020, 2, 1, 6, 0, 0, 0), (2019, 12, 31, 23, 59, 59, 0),
+       (2020, 1, 1, 0, 0, 0, 0), (2020, 2, 29, 1, 0, 0, 0), (2020, 2, 28, 23, 0, 0, 0), (2020, 10, 2, 5, 30, 0, 0),
+       (2020, 9, 30, 7, 0, 0, 500), (2021, 1, 1, 0, 0, 0, 0), (2020, 12, 31, 23, 59, 59, 999),
+       (2020, 6, 15, 12, 0, 0, 0), (2020, 5, 20, 12, 0, 0, 0), (2020, 3, 1, 0, 0, 1, 0)]
 NAN = float("nan")
 
 C01_OPS = ("create", "update", "remove", "setitem", "setitem_delete", "setitem_func", "setobs",
@@ -137,7 +142,7 @@ class TrackWorld(World):
             ops[cls.FALSIFIERS[focus][0]] = 2
         return {"nsteps": r.choice([5, 10, 20, 40, 80, 120]), "sessions": r.choice([1, 1, 2, 3]),
                 "fam": w, "ops": ops, "size_bias": r.choice(["tiny", "pow2", "any"]),
-                "n_instants": r.choice([1, 2, 4, 6]),
+                "n_instants": r.choice([1, 2, 4, 6]), "calendar": r.random() < 0.3,
                 "with_features": r.random() < (0.3 if focus == "C04" else 0.6),
                 "fork_rate": r.choice([0, 0.02, 0.08]), "names": list(NAMES[: r.choice([2, 3, 4, 4])]),
                 "sorted_tracks": 0.9 if focus == "C17" else r.choice([0.2, 0.6, 0.9]),
@@ -210,14 +215,20 @@ class TrackWorld(World):
 
     def _gen_obs(self, r):
         k = r.randrange(self.cfg["n_instants"]) * r.choice([1, 1, 7])
-        tf = list(T0)
-        tf[4], tf[5] = (k // 60) % 60, k % 60
+        tf = self._instant(k)
         if r.random() < 0.1:
             tf[6] = r.choice([1, 500, 999])
         # z carries the unique tag of the observation (no operation of the workload writes z);
         # x and y repeat so that zero-length legs and revisited positions occur
         return [r.choice([0.0, 1.0, 1.00002, 3.5, -2.0, 1000.25, r.uniform(-50, 50), r.choice([4.0e6, -7.5e6, 123456.5])]),
                 r.choice([0.0, 0.00001, 2.0, -1.5, 0.001, r.uniform(-50, 50)]), self._tag(), tf]
+
+    def _instant(self, k):
+        if self.cfg.get("calendar"):
+            return list(CAL[k % len(CAL)])
+        tf = list(T0)
+        tf[4], tf[5] = (k // 60) % 60, k % 60
+        return tf
 
     def _gen_size(self, r):
         b = self.cfg["size_bias"]
@@ -248,7 +259,10 @@ class TrackWorld(World):
                 obs.sort(key=lambda o: tuple(o[3]))
             st = {"op": "new_track", "s": s, "obs": obs}
             if n and self.cfg["with_features"] and r.random() < 0.5:
-                st["feats"] = {nm: [self._uval() for _ in range(n)] for nm in self.cfg["names"][:2]}
+                first = list(self.cfg["names"][:2])
+                if r.random() < 0.4:
+                    first.reverse()          # creation order differs between tracks of one run
+                st["feats"] = {nm: [self._uval() for _ in range(n)] for nm in first}
             return st
         if r.random() < self.cfg["fork_rate"] and self.cfg["sessions"] > 1:
             return {"op": "fork", "s": s, "to": (s + 1) % self.cfg["sessions"]}
@@ -429,7 +443,7 @@ class TrackWorld(World):
     def _g_fork_span(self, r, m):
         st = self._g_span(r, m)
         if r.random() < 0.5:
-            st["t1"], st["t2"] = list(T0), [2020, 3, 1, 0, 59, 59, 999]      # whole track
+            st["t1"], st["t2"] = [1970, 1, 1, 0, 0, 0, 0], [2099, 12, 31, 23, 59, 59, 999]      # whole track
         st["to"] = r.randrange(self.cfg["sessions"])
         return st
 
@@ -472,9 +486,7 @@ class TrackWorld(World):
         def inst():
             k = r.randrange(-1, self.cfg["n_instants"] * 7 + 2)
             k = max(k, 0)
-            tf = list(T0)
-            tf[4], tf[5] = (k // 60) % 60, k % 60
-            return tf
+            return self._instant(k)
         return {"t1": inst(), "t2": inst()}
 
     def _g_concat(self, r, m):
@@ -1675,8 +1687,27 @@ class TrackWorld(World):
             t.getListAnalyticalFeatures() == t2.getListAnalyticalFeatures()
         if same and m["names"]:
             self.probe("concat_with_equal_feature_lists")
-        self._derive(st, "t%d + t%d" % (st.get("s", 0), o), lambda: t + t2, m["obs"] + m2["obs"], m,
-                     check_feats=same)
+        where = "t%d + t%d" % (st.get("s", 0), o)
+        rv = self._derive(st, where, lambda: t + t2, m["obs"] + m2["obs"], m, check_feats=same)
+        if not same and not self.violations and rv is not None and hasattr(rv, "getListAnalyticalFeatures"):
+            # the operands list different features (or the same ones in another order): whatever
+            # the result lists must still read, for every observation, the value that observation
+            # has under that name in its own track
+            exp_obs = m["obs"] + m2["obs"]
+            for nm in rv.getListAnalyticalFeatures():
+                if any(nm not in o_["f"] for o_ in exp_obs):
+                    self.fail("C04", "derived.names", where + ": the result lists %r, which one operand does not "
+                              "have" % nm, "not listed", nm)
+                    return
+                got, exc = self.call(rv.getAnalyticalFeature, nm)
+                e = [o_["f"][nm] for o_ in exp_obs]
+                if exc is not None or not leq(list(got), e):
+                    self.fail("C04", "derived.values", where + ": values of %r in the result (operands list their "
+                              "features in different orders)" % nm, jsonable(e),
+                              repr(exc) if exc is not None else jsonable(list(got)))
+                    return
+            if sorted(m["names"]) == sorted(m2["names"]) and m["names"]:
+                self.probe("concat_same_features_in_another_order")
 
     def op_mod_n(self, st):
         t, m = self._sess(st)
